@@ -71,7 +71,7 @@ theorem stateless_distributes (d : D) (f : V → V) (p : V → Bool) (g : V → 
     order — two elements with equal keys are on the same replica. -/
 theorem groupBy_copartitions (h : V → Nat) (n : Nat) (c : Nat → Nat) (d : D) :
     Coloc h (exchange n (fun _ v => h v.fst) c d) ∧
-    ∀ i j li lj p q, (exchange n (fun _ v => h v.fst) c d)[i]? = some li →
+    ∀ (i j : Nat) (li lj : List V) (p q : V), (exchange n (fun _ v => h v.fst) c d)[i]? = some li →
       (exchange n (fun _ v => h v.fst) c d)[j]? = some lj → p ∈ li → q ∈ lj → p.fst = q.fst → i = j := by
   refine ⟨coloc_exchange h n c d, ?_⟩
   intro i j li lj p q hi hj hp hq hpq
@@ -112,11 +112,7 @@ theorem keyed_twoPhase (g : Agg) (k : V) (parts : D) (ps : List Int)
   rw [foldl_glob_perm g hps 0]
   have := twoPhase_sum g (parts.map fun p => projs (valsOf k p))
   simp only [map_map, Function.comp_def] at this
-  rw [this]
-  congr 1
-  induction parts with
-  | nil => rfl
-  | cons p ps ih => simp [valsOf_append, projs] at ih ⊢; rw [ih]
+  rw [this, projs_valsOf_flatten]
 
 /-- **join_broadcastRight**: with the right side broadcast to every replica, the union of the
     per-replica inner / left joins is the join of the whole left side with the right side. -/
@@ -176,10 +172,11 @@ example : seqEval exampleJob =
     [(8, [V.pair (.int 0) (.int 18), V.pair (.int 1) (.int 12), .int 8]),
      (9, [.int 4, .int 5, .int 6, .int 7, .int 8])] := by decide
 
+
 /-- the parallel run on 3 replicas really permutes (and agrees as a multiset, by the theorem) -/
 example : parEval ⟨3⟩ exampleOrc exampleJob =
     [(8, [V.pair (.int 1) (.int 12), V.pair (.int 0) (.int 18), .int 8]),
-     (9, [.int 4, .int 5, .int 7, .int 8, .int 6])] := by decide
+     (9, [.int 6, .int 4, .int 7, .int 5, .int 8])] := by decide
 
 example : Coloc (fun v => v.proj.toNat) [[V.pair (.int 0) (.int 5), V.pair (.int 2) (.int 1)], [V.pair (.int 1) (.int 7)]] := by
   intro j l hj p hp
